@@ -163,7 +163,9 @@ DecSeqs ==
      <<Dec("t1", "fx.Decorate", <<ALit("int", "1"), ASvc("s4"), ASelf>>)>>,
      \* arguments that print alike and differ in type, within one decorator and across decorators
      <<Dec("t1", "fx.Decorate", <<ALit("int", "7"), AStr("7")>>),
-       Dec("t1", "fx.DecorateB", <<AStr("7"), ALit("bool", "true"), AStr("true"), ALit("float", "1.5"), AStr("1.5"), ALit("int", "7")>>)>> >>
+       Dec("t1", "fx.DecorateB", <<AStr("7"), ALit("bool", "true"), AStr("true"), ALit("float", "1.5"), AStr("1.5"), ALit("int", "7")>>)>>,
+     \* more than ten decorators: declaration order is numeric, not the order of the printed indices
+     [i \in 1..12 |-> Dec(IF i = 7 THEN "t2" ELSE "t1", IF i % 3 = 0 THEN "fx.DecorateB" ELSE "fx.Decorate", <<ALit("int", ToString(i))>>)] >>
 
 (* ways of spreading a configuration over files *)
 TagsTail(c) == [s \in {x \in DOMAIN c.services : Len(c.services[x].tags) >= 2} |->
